@@ -792,6 +792,12 @@ mod sync {
                                         None       => lock.push((current_id, current_waker)),
                                     }
                                 }
+                                // The handler may have run between the `CATCH.load` above and the
+                                // publication of the waker: it then found no waker to wake, and
+                                // nobody would wake the one just published. Look again.
+                                if CATCH.load(Ordering::SeqCst) {
+                                    return Poll::Ready(None)
+                                }
                                 Poll::Pending
                             }
                         }
